@@ -106,10 +106,9 @@ func collectSites(rt *rapid.T, root *gast.Expr) []site {
 					sites = append(sites, site{kind: "operator", apply: func() { x.Op = to }})
 				}
 			}
-			if x.Op == gast.OpSub || gast.DocLevel(x.Op) == 3 || x.Op == gast.OpDiv {
-				if x.Op != gast.OpDiv {
-					sites = append(sites, site{kind: "operand_order", apply: func() { x.L, x.R = x.R, x.L }})
-				}
+			if x.Op == gast.OpSub || gast.DocLevel(x.Op) == 3 || x.Op == gast.OpAdd || x.Op == gast.OpMul {
+				// + and * commute for numbers but + is concatenation as soon as a string is involved
+				sites = append(sites, site{kind: "operand_order", apply: func() { x.L, x.R = x.R, x.L }})
 			}
 			if gast.DocLevel(x.Op) <= 3 && gast.DocLevel(x.Op) >= 1 {
 				sites = append(sites, site{kind: "negation", apply: func() { *pe = &gast.Not{X: x} }})
